@@ -5,14 +5,23 @@ alphabet (all of {-1,0,1}^(m x k) resp. {0,1}^(m x k), de-duplicated on C itself
 all the function sees) x every partition (number of on-axis sub-apertures) x every
 conditioning value is pushed through the REAL create_tomographic_covariance_reconstructor.
 The retained subspace comes from an independent eigen-decomposition of C_off,off; the
-normal equations are checked on it, zero weight on the discarded directions, and optimality
-is decided by basis exhaustion: the residual variance J(R) = E|s_on - R s_off|^2 is a convex
+normal equations are checked on it, zero weight on the discarded directions that carry variance,
+and optimality is decided by basis exhaustion: the residual variance J(R) = E|s_on - R s_off|^2 is a convex
 quadratic in R, so R is optimal on the retained subspace iff J does not decrease along +-
 every elementary direction E_ab P -- all of them are evaluated from the definition of J.
+Every 8th matrix (thorough: every matrix) additionally: other storage / call histories on one array, the
+default conditioning and keyword / numpy-scalar spelling of the arguments, conditioning 2, the same matrix
+scaled by 2^-46 and 2^33, and the matrix handed over in single precision.
 
-B (end to end, E1): geometries through the real CovarianceMatrix builder with the on-axis
+B, B2 (end to end, E1): geometries through the real CovarianceMatrix builder. B: the on-axis
 sensor duplicated as the first or the second off-axis sensor and another sensor elsewhere; R
-must be [I 0] resp. [0 I] and satisfy the normal equations on the float32 matrix.
+must be [I 0] resp. [0 I] and satisfy the normal equations on the float32 matrix. B2: two identical off-axis
+sensors without a copy of the on-axis one (rank-deficient off-axis block, also ground-layer-only profiles), four
+sensors with the duplicate in the middle, two sensors (R = I), the duplicate pair with half-size sub-apertures,
+and the matrix assembled by the multi-process path of the builder.
+
+H (call histories on one object, E3): all histories of {assign geometry attributes, build, reconstruct(c),
+reconstruct(), caller edits the matrix}; the oracle is the free function on a copy of the matrix the caller holds.
 """
 import itertools
 
@@ -25,37 +34,60 @@ PROPERTY = "C02"
 LEVEL = "exploration"
 TECHNIQUE = ("bounded exhaustive enumeration of integer PSD matrices x partitions x conditioning values on "
              "the real reconstructor, optimality decided by exhausting all elementary perturbation "
-             "directions of the convex residual variance; end-to-end duplicate-sensor geometries through "
-             "the real covariance builder")
+             "directions of the convex residual variance; end-to-end sensor layouts (duplicated on-axis sensor, "
+             "identical off-axis sensors, 2-4 sensors, multi-process build) through the real covariance builder; "
+             "breadth-first search over call histories on one CovarianceMatrix object")
 RULE = ("A: cases = chunks of 256 consecutive matrices of the sorted list of distinct C = G G^T, G over the "
         "family alphabet; inside a case every (n_on, rcond) is evaluated. B: case = (mask, on-axis kind, "
         "third-sensor kind, third mask, third size, position of the duplicate); inside every layer set with a layer at altitude, two "
-        "wavelength assignments and every rcond. Non-trivial: chunk contains a rank-deficient C_off,off "
-        "(A) / always (B)")
+        "wavelength assignments, every rcond and the default conditioning. B2: case = (layout, mask, on-axis kind, "
+        "other kinds). H: case = start geometry, inside every history up to the depth bound. Non-trivial: chunk "
+        "contains a rank-deficient C_off,off (A) / always (B, B2, H)")
 ASSUMPTIONS = [
-    "A: matrices outside the integer families (other sizes, entries) are not covered; float64 input",
+    "A: matrices outside the integer families (other sizes, entries) are not covered; float64 input, plus the "
+    "same integer matrices as int64 / int32 / float32 arrays and scaled by 2^-46 and 2^33",
     "retained subspace = eigen-directions of C_off,off with eigenvalue > rcond * largest; an eigenvalue "
-    "within 1e-9 relative of the cut-off is 'borderline': the clauses then only use the clearly retained "
-    "and the clearly discarded directions (either treatment of a borderline direction is accepted)",
+    "within 1e-9 relative of the cut-off (float64 input; 1e-4 / rcond relative for float32 input, whose singular "
+    "values carry an error of ~4e-6 of the largest) is 'borderline': the clauses then only use the clearly "
+    "retained and the clearly discarded directions (either treatment of a borderline direction is accepted)",
+    "ADDED clause, not in the statement (it says what 'conditioning' means): R gives no weight to the clearly "
+    "discarded directions that carry variance (eigenvalue > 1e-10 of the largest; end to end > 1e-5). Weight on "
+    "exactly-null directions of C_off,off does not change E|s_on - R s_off|^2 and is only counted "
+    "(weight_on_null_directions_observed); equal weights on two identical sensors are an observation",
     "rcond = 0 is claimed only for numerically full-rank C_off,off (the statement restricts zero "
-    "conditioning to a well-conditioned C_off,off); rank-deficient C_off,off with rcond = 0 is counted "
-    "(rc0_singular_not_claimed) and its behaviour recorded as an observation, not as a clause",
-    "B: duplicate-sensor clause claimed for cond(C_off,off) <= 300 (float32 matrix, statement: "
-    "well-conditioned); worse-conditioned geometries of the lattice are counted, not judged",
-    "tolerances: A 1e-9 relative to the operand scale (measured <= 1e-13), B 1e-4 (float32 pinv)",
+    "conditioning to a well-conditioned C_off,off); rank-deficient or all-zero C_off,off with rcond = 0 is "
+    "counted (rc0_singular_not_claimed) and its behaviour (non-finite result, exception, not optimal) recorded "
+    "as an observation, not as a clause",
+    "B, B2: with rcond = 0 everything is claimed only for cond(C_off,off) <= 300 (float32 matrix, statement: "
+    "well-conditioned), counted otherwise; with rcond > 0 the normal equations on the retained subspace are "
+    "judged for every geometry (what is retained has condition number <= 1 / rcond); the duplicate-sensor "
+    "identity is claimed when nothing is discarded and cond <= 300",
+    "method versus free function on a copy of the returned matrix: equal up to the float32 tolerance (not bit "
+    "equal), and only when no eigenvalue is borderline",
+    "H: the oracle is the free function applied to a copy of the matrix RETURNED by the last build (with the "
+    "caller's later edits). Assigning gs_positions / layer_altitudes on the object is a stimulus only: whether the "
+    "next build re-reads them is not claimed. Edits of cm.covariance_matrix (in place / assignment) are part of "
+    "the histories only if a fresh object is seen to read that attribute (else counted as not claimed)",
+    "tolerances: A 1e-9 relative to the operand scale (measured <= 1e-12), float32 input 1e-5 (measured <= 2e-7); "
+    "B 1e-4 (float32 pinv; measured <= 9e-6), for rcond = 1e-3: 1.2e-3 (10 eps32 / rcond; measured <= 5e-5); "
+    "H 1e-4 (measured 0; a float64 route differs by <= 6e-7; stale results differ by >= 2e-2)",
+    "the default conditioning (third argument omitted) is 0, as documented in both signatures",
 ]
-ENGINES = ["E1-product-enumeration", "E2-basis-exhaustion"]
+ENGINES = ["E1-product-enumeration", "E2-basis-exhaustion", "E3-explicit-state-history-search"]
 LEVEL_TEXT = ("All distinct C = G G^T for G in {-1,0,1}^(4x2) (quick) plus {-1,0,1}^(4x3), {-1,0,1}^(6x2) "
               "(thorough) and {0,1}^(6x3) (both) are enumerated completely (861 / 12229 / 66795 / 45760 "
               "matrices, incl. rank-deficient, zero-block, duplicated-row ones) x partitions x 5 conditioning "
               "values; for each, all 2 n_on x n_off elementary perturbation directions on the retained subspace "
               "are exhausted in both signs, which decides optimality against every competing linear map by "
-              "convexity. End to end: every lattice geometry with a duplicated on-axis sensor.")
+              "convexity. End to end: every lattice geometry with a duplicated on-axis sensor, plus the B2 sensor "
+              "layouts. Histories: every sequence of the 9 operations up to depth 6 (quick) / until no new state is reached (thorough; at most 2 caller edits per build) on one object.")
 LEVEL_NOTE = ("Trusted: numpy.linalg.eigh for the oracle projector, the algebra J(R) = tr(Coo - 2 R Cfo + R Cff R^T). "
-              "Not covered: matrices outside the families, rcond = 0 on singular C_off,off (outside the statement).")
+              "Not covered: matrices outside the families, rcond = 0 on singular C_off,off (outside the statement), "
+              "empty partitions (n_on = 0 or no off-axis measurement).")
 
 RCONDS = [0.0, 1e-12, 0.1, 0.5, 0.9]
 TOL_A = 1e-9
+TOL_F32 = 1e-5      # float32 input, rcond >= 0.1 (retained condition number <= 10): measured <= 2e-7 on the unchanged library
 BORDER = 1e-9
 ZERO_EIG = 1e-10
 CHUNK = 256
@@ -115,9 +147,19 @@ def BOUNDS(tier):
     return {"A_families": {f: {"m": FAMILIES[f][0], "k": FAMILIES[f][1], "alphabet": list(FAMILIES[f][2]),
                                "distinct_C": int(len(family(f)))} for f in _families(tier)},
             "A_n_on": "1 for m=4; 1,2 for m=6", "A_rcond": RCONDS, "A_chunk": CHUNK, "A_big(m, rank, n_on)": ABIG,
+            "A_extras": {"on": "every 8th matrix" if tier == "quick" else "every matrix", "rcond": [2.0],
+                         "scale_factors": ["2^-46", "2^33"], "scale_rcond": [1e-12, 0.1],
+                         "float32_rcond": [0.1, 0.5, 0.9], "argument_spelling": ["keywords", "numpy.int64 / numpy.float64"],
+                         "default_conditioning": "third argument omitted"},
             "B_masks": B_MASKS_Q if tier == "quick" else B_MASKS_T, "B_kinds": C01.KIND_NAMES,
-            "B_layer_sets": ["".join(map(str, s)) for s in B_LSETS], "B_rcond": B_RCONDS,
-            "B_wavelengths": ["all 500 nm", "third sensor 700 nm"], "B_duplicate_position": [1, 2], "B_third_size": ["d1", "d2"], "B_cond_max": B_COND_MAX}
+            "B_layer_sets": ["".join(map(str, s)) for s in B_LSETS], "B_rcond": B_RCONDS + ["default"],
+            "B_wavelengths": ["all 500 nm", "third sensor 700 nm"], "B_duplicate_position": [1, 2], "B_third_size": ["d1", "d2"], "B_cond_max": B_COND_MAX,
+            "B2_layouts": {"XX": "[on, X, X] layer sets + ground layer only", "mid4": "[on, other, duplicate, other]",
+                           "two": "[on, duplicate] layer sets + ground layer only", "dupd2": "[on, duplicate, other] half-size sub-apertures",
+                           "mp": "[on, duplicate, other] built with threads=2 (controlled pool)"},
+            "B2_other_kinds": "one per on-axis kind" if tier == "quick" else "all",
+            "H_ops": H_OPS, "H_depth": H_DEPTH[tier], "H_max_caller_edits_per_build": H_MAX_EDITS,
+            "H_geometries": sorted(H_GEOMS)}
 
 
 def _b_cases(tier):
@@ -136,7 +178,7 @@ def _b_cases(tier):
 
 def cases(tier):
     for g in sorted(H_GEOMS):
-        yield Case("H:start=%s" % g, {"kind": "H", "start": g, "depth": 6 if tier == "quick" else 8})
+        yield Case("H:start=%s" % g, {"kind": "H", "start": g, "depth": H_DEPTH[tier]})
     for c in _cases_ab(tier):
         yield c
 
@@ -150,6 +192,8 @@ def _cases_ab(tier):
         yield Case("Abig:m=%d:rank=%d:non=%d" % (m, k, non), {"kind": "Abig", "m": m, "k": k, "non": non})
     for b in _b_cases(tier):
         yield Case("B:%s/%s+%s/%s/%s:dup@%d" % (b[0], b[1], b[3], b[2], b[4], b[5]), {"kind": "B", "b": list(b)})
+    for b in _b2_cases(tier):
+        yield Case("B2:%s:%s/%s+%s+%s" % b, {"kind": "B2", "b2": list(b)})
 
 
 # ----------------------------------------------------------------------------- call histories on one object
@@ -160,7 +204,14 @@ H_GEOMS = {
     "g0": dict(gspos=[[0., 0.], [0., 0.], [20., -10.]], alts=[0., 8000.]),
     "g1": dict(gspos=[[0., 0.], [0., 0.], [-15., 25.]], alts=[0., 12000.]),
 }
-H_OPS = ["geom:g0", "geom:g1", "build", "rec:0", "rec:0.1", "rec:0.5"]
+H_OPS = ["geom:g0", "geom:g1", "build", "rec:0", "rec:0.1", "rec:0.5", "rec:default", "edit:diag", "assign:diag"]
+# float32 matrix, C_off,off of g0/g1 has condition number ~160: the method differs from the function applied to a
+# float64 copy by <= 6e-7 on the unchanged library (0 from the function on a float32 copy); a reconstructor of
+# another matrix / conditioning is off by 2e-2 ... 1
+H_TOL = 1e-4
+H_DEPTH = {"quick": 6, "thorough": 12}      # the state space (bounded by H_MAX_EDITS) closes at depth 11: 230 states
+H_MAX_EDITS = 2          # caller edits of the matrix per history (every edit is a new matrix: bounds the state space)
+H_NOISE = 0.2            # the caller adds this fraction of the mean diagonal to the diagonal (WFS noise variance)
 
 
 def _h_object(geom):
@@ -171,48 +222,140 @@ def _h_object(geom):
                                [5e-7, 5e-7, 6e-7], 2, list(g["alts"]), [0.2, 0.3], [25., 10.], threads=1)
 
 
+H_NON = 4                # sub-apertures of the first sensor of _h_object
+
+
+def _h_noisy(M):
+    """what the caller does to its matrix: noise variance on the diagonal (a new array, same dtype)"""
+    M = numpy.array(M)
+    d = numpy.arange(M.shape[0])
+    M[d, d] += numpy.asarray(H_NOISE * float(numpy.mean(M[d, d])), dtype=M.dtype)
+    return M
+
+
+def _h_cut_clear(M, rc):
+    """no eigenvalue of C_off,off so close to the cut that single-precision rounding decides its side"""
+    if rc == 0.0:
+        return True
+    C = numpy.asarray(M, dtype=float)
+    Cff = C[2 * H_NON:, 2 * H_NON:]
+    w = numpy.linalg.eigvalsh(0.5 * (Cff + Cff.T))
+    wmax = float(numpy.max(numpy.abs(w)))
+    return bool(wmax > 0 and numpy.min(numpy.abs(w / wmax - rc)) > rc * _border32(rc))
+
+
+def _h_probe(kind):
+    """does the method read the matrix the caller left in `cm.covariance_matrix` (edited in place / assigned)?
+    Asked on a fresh object with no earlier reconstructor. That attribute is how the library hands the matrix from
+    the builder to the method, but it is not a documented input: when the answer is no (or asking fails) the edit
+    operations are left out of the histories."""
+    try:
+        fn = _fn()
+        cm = _h_object("g0")
+        M = numpy.array(cm.make_covariance_matrix())
+        new = _h_noisy(M)
+        if kind == "edit":
+            cm.covariance_matrix[...] = new
+        else:
+            cm.covariance_matrix = new.copy()
+        got = numpy.array(cm.make_tomographic_reconstructor(svd_conditioning=0))     # (copies: held across calls)
+        want = numpy.array(fn(new.copy(), H_NON, 0))
+        stale = numpy.array(fn(M.copy(), H_NON, 0))
+        # (the edit moves R by ~0.2 at conditioning 0: the question is decidable)
+        return bool(got.shape == want.shape and _maxabs(got - want) <= H_TOL and _maxabs(stale - want) > 100 * H_TOL)
+    except Exception:
+        return False
+
+
 def _evaluate_h(p):
-    """BFS over all histories of {change geometry, rebuild, reconstruct(c)} on ONE CovarianceMatrix object:
-    every reconstructor returned must be bit-identical to the one a fresh object gives for the geometry of
-    the last build and that conditioning."""
+    """BFS over all histories of {assign geometry attributes, rebuild, reconstruct(c), reconstruct(), caller edits the
+    matrix} on ONE CovarianceMatrix object: every reconstructor returned by the method must be the one the free
+    function gives for (a copy of) the matrix the last build returned, with the caller's edits, and that
+    conditioning. Assigning geometry attributes is only a stimulus (whether the next build re-reads them is not
+    claimed): the oracle follows the matrix the build RETURNS."""
     from mc import statespace as ss
     o = Out()
-    ref = {}
-    for g in H_GEOMS:
-        for c in (0, 0.1, 0.5):
-            obj = _h_object(g)
-            obj.make_covariance_matrix()
-            ref[(g, c)] = numpy.array(obj.make_tomographic_reconstructor(svd_conditioning=c))
-    o.stat("lib_calls", 2 * len(ref))
-    world = ss.World({"cm": _h_object(p["start"]), "meta": {"geom": p["start"], "built": None}})
+    fn = _fn()
+    claimed = {"edit:diag": _h_probe("edit"), "assign:diag": _h_probe("assign")}
+    o.stat("lib_calls", 8)
+    for k, v in claimed.items():
+        if not v:
+            o.stat("H_%s_attribute_not_read_not_claimed" % k.split(":")[0], 1)
+    ops = [op for op in H_OPS if claimed.get(op, True)]
+    world = ss.World({"cm": _h_object(p["start"]),
+                      "meta": {"geom": p["start"], "built": None, "current": None, "edits": 0}})
+    want_cache = {}
+    geom_ok = [True]
 
     def alphabet(w):
-        return [op for op in H_OPS if not (op.startswith("rec") and w.objects["meta"]["built"] is None)]
+        meta = w.objects["meta"]
+        out = []
+        for op in ops:
+            if (op.startswith("rec") or op.endswith(":diag")) and meta["current"] is None:
+                continue
+            if op.endswith(":diag") and meta["edits"] >= H_MAX_EDITS:
+                continue
+            if op.startswith("geom:") and not geom_ok[0]:
+                continue
+            out.append(op)
+        return out
 
     def apply_op(w, op):
         cm, meta = w.objects["cm"], w.objects["meta"]
         if op.startswith("geom:"):
             g = H_GEOMS[op[5:]]
-            cm.gs_positions = [list(x) for x in g["gspos"]]
-            cm.layer_altitudes = list(g["alts"])
-            meta["geom"] = op[5:]
+            try:
+                cm.gs_positions = [list(x) for x in g["gspos"]]
+                cm.layer_altitudes = list(g["alts"])
+                meta["geom"] = op[5:]
+            except Exception:           # attributes that cannot be assigned: not a documented way to change geometry
+                geom_ok[0] = False
+                o.stat("H_geometry_attributes_not_assignable_not_claimed", 1)
             return None
         if op == "build":
             meta["built"] = meta["geom"]
-            return numpy.array(cm.make_covariance_matrix())
+            meta["edits"] = 0
+            M = numpy.array(cm.make_covariance_matrix())
+            meta["current"] = M.copy()
+            return M
+        if op == "edit:diag":
+            new = _h_noisy(meta["current"])
+            cm.covariance_matrix[...] = new
+            meta["current"] = new
+            meta["edits"] += 1
+            return None
+        if op == "assign:diag":
+            new = _h_noisy(meta["current"])
+            cm.covariance_matrix = new.copy()
+            meta["current"] = new
+            meta["edits"] += 1
+            return None
+        if op == "rec:default":
+            return numpy.array(cm.make_tomographic_reconstructor())
         return numpy.array(cm.make_tomographic_reconstructor(svd_conditioning=float(op[4:])))
 
     def on_transition(hist, op, pre, w, result, loop):
-        if op.startswith("rec:"):
-            built = w.objects["meta"]["built"]
-            want = ref[(built, float(op[4:]))]
-            same = result.shape == want.shape and result.tobytes() == want.tobytes()
-            o.check("reconstructor_follows_last_build", same, sub="h=%s" % ",".join(hist + (op,)),
-                    measure=None if result.shape != want.shape else float(numpy.max(numpy.abs(result - want))),
-                    detail={"built_geometry": built})
+        if not op.startswith("rec:"):
+            return
+        meta = w.objects["meta"]
+        rc = 0.0 if op == "rec:default" else float(op[4:])
+        cur = meta["current"]
+        key = (cur.tobytes(), rc)
+        if key not in want_cache:
+            want_cache[key] = (numpy.array(fn(cur.copy(), H_NON, rc)), _h_cut_clear(cur, rc))
+            o.stat("lib_calls", 1)
+        want, clear = want_cache[key]
+        if not clear:
+            o.stat("H_eigenvalue_on_cut_not_claimed", 1)
+            return
+        err = None if result.shape != want.shape else _maxabs(result - want) / max(1.0, _maxabs(want))
+        o.check("reconstructor_follows_last_build", err is not None and err <= H_TOL,
+                sub="h=%s" % ",".join(hist + (op,)), measure=err, tol=H_TOL,
+                detail={"built_geometry": meta["built"], "caller_edits": meta["edits"]})
     st = ss.bfs(world, alphabet, apply_op, on_transition, p["depth"])
     o.stat("history_states", st["states"])
     o.stat("history_transitions", st["transitions"])
+    o.stat("history_state_space_closed", int(bool(st["frontier_empty"])))
     o.stat("nontrivial", st["transitions"])
     return o
 
@@ -225,19 +368,30 @@ def _maxabs(a):
     return float(m) if m == m else float("inf")
 
 
-def _split(w, rc):
-    """classify eigenvalues: clearly kept / clearly dropped (rest = borderline or noise)"""
+def _border32(rc):
+    """relative half-width of the 'borderline' band around the cut for a SINGLE precision decomposition: float32
+    singular values carry an error of ~ n * eps32 * largest ~ 4e-6 * largest, i.e. 4e-6 / rc relative to the cut;
+    25 x that"""
+    return min(0.5, 1e-4 / rc) if rc > 0 else 0.0
+
+
+def _split(w, rc, border=BORDER):
+    """classify eigenvalues: clearly kept / clearly dropped (rest = borderline or noise); third value: rcond = 0 on a
+    numerically rank-deficient (or zero) block, which is not claimed"""
     wmax = float(numpy.max(numpy.abs(w))) if w.size else 0.0
     noise = numpy.abs(w) <= ZERO_EIG * wmax
     if wmax == 0.0:
+        # C_off,off == 0: nothing retained; every direction is an exactly-null direction
+        if rc == 0.0:
+            return numpy.zeros(w.shape, bool), numpy.zeros(w.shape, bool), bool(w.size)
         return numpy.zeros(w.shape, bool), numpy.ones(w.shape, bool), False
     cut = rc * wmax
     if rc == 0.0:
         keep = ~noise
         drop = numpy.zeros(w.shape, bool)           # noise directions: either treatment accepted
         return keep, drop, bool(noise.any())
-    keep = w > cut * (1.0 + BORDER)
-    drop = w < cut * (1.0 - BORDER)
+    keep = w > cut * (1.0 + border)
+    drop = w < cut * (1.0 - border)
     return keep, drop, False
 
 
@@ -247,41 +401,60 @@ def _J(Rb, Coo, Cof, Cff):
     return numpy.trace(Coo) - 2.0 * (Rb * Cof).sum(axis=(1, 2)) + (RC * Rb).sum(axis=(1, 2))
 
 
-def _judge(o, fn, C, non, rc, sub, agg, eig):
-    """all function-level clauses for one (C, n_on, rcond); returns R"""
+def _judge(o, fn, C, non, rc, sub, agg, eig, tol=TOL_A, border=BORDER, sfx="", dtype=None):
+    """all function-level clauses for one (C, n_on, rcond); returns R. `dtype`: the matrix is handed over in that
+    dtype (values exactly representable), clause names get the suffix `sfx`"""
     m = C.shape[0]
     p, q = 2 * non, m - 2 * non
-    R = numpy.asarray(fn(C.copy(), non, rc))
+    Coo, Cof, Cff = C[:p, :p], C[:p, p:], C[p:, p:]
+    w, V = eig
+    keep, drop, rc0_singular = _split(w, rc, border)
+    not_claimed = rc0_singular and not RC0_SINGULAR_IS_CLAUSE
+    arg = C.copy() if dtype is None else C.astype(dtype)
+    try:
+        R = numpy.asarray(fn(arg, non, rc))
+    except Exception as e:
+        o.stat("lib_calls", 1)
+        if not_claimed:
+            o.stat("rc0_singular_not_claimed", 1)
+            o.stat("rc0_singular_exception_observed", 1)
+            return None
+        o.check("no_exception" + sfx, False, sub=sub, detail="%s: %s; %s" % (type(e).__name__, str(e)[:200], _detail(C)))
+        return None
     o.stat("lib_calls", 1)
     if R.shape != (p, q):
-        o.check("shape", False, sub=sub, detail="shape %s, expected %s" % (R.shape, (p, q)))
+        o.check("shape" + sfx, False, sub=sub, detail="shape %s, expected %s" % (R.shape, (p, q)))
         return None
     agg["shape"] += 1
     R = R.astype(float)
-    Coo, Cof, Cff = C[:p, :p], C[:p, p:], C[p:, p:]
-    w, V = eig
-    keep, drop, rc0_singular = _split(w, rc)
+    wmax = float(numpy.max(numpy.abs(w))) if w.size else 0.0
+    null = numpy.abs(w) <= ZERO_EIG * wmax
     Pk = V[:, keep] @ V[:, keep].T
-    Pd = V[:, drop] @ V[:, drop].T
+    Pd = V[:, drop & ~null] @ V[:, drop & ~null].T
+    Pn = V[:, drop & null] @ V[:, drop & null].T
     if not numpy.all(numpy.isfinite(R)):
-        if rc0_singular and not RC0_SINGULAR_IS_CLAUSE:
+        if not_claimed:
             o.stat("rc0_singular_not_claimed", 1)
             o.stat("rc0_singular_not_optimal_observed", 1)
             return R
-        o.check("finite", False, sub=sub, detail=_detail(C))
+        o.check("finite" + sfx, False, sub=sub, detail=_detail(C))
         return R
     scale = max(1.0, _maxabs(Cof) + q * _maxabs(R) * _maxabs(Cff))
     res = _maxabs((R @ Cff - Cof) @ Pk) / scale
-    if rc0_singular and not RC0_SINGULAR_IS_CLAUSE:
+    if not_claimed:
         o.stat("rc0_singular_not_claimed", 1)
-        if not res <= TOL_A:
+        if not res <= tol:
             o.stat("rc0_singular_not_optimal_observed", 1)
         return R
-    _rec(o, agg, "normal_equations_on_retained", res, TOL_A, sub, C)
-    _rec(o, agg, "zero_weight_on_discarded", _maxabs(R @ Pd) / scale, TOL_A, sub, C)
+    _rec(o, agg, "normal_equations_on_retained" + sfx, res, tol, sub, C)
+    # added clause (conditioning filters modes): no weight on the clearly discarded directions that carry variance.
+    # On exactly-null directions of C_off,off the weight does not change E|s_on - R s_off|^2: observation only.
+    _rec(o, agg, "zero_weight_on_discarded" + sfx, _maxabs(R @ Pd) / scale, tol, sub, C)
+    if _maxabs(R @ Pn) / scale > tol:
+        o.stat("weight_on_null_directions_observed", 1)
     if rc == 0.0:
         # numerically full rank: plain equality R Cff = Cof
-        _rec(o, agg, "equality_zero_conditioning", _maxabs(R @ Cff - Cof) / scale, TOL_A, sub, C)
+        _rec(o, agg, "equality_zero_conditioning" + sfx, _maxabs(R @ Cff - Cof) / scale, tol, sub, C)
     # optimality by basis exhaustion: J(R +- eps E_ab Pk) >= J(R), central difference = 0
     dirs = numpy.zeros((p * q, p, q))
     for a in range(p):
@@ -292,10 +465,10 @@ def _judge(o, fn, C, non, rc, sub, agg, eig):
     Jm = _J(R[None] - EPS_DIR * dirs, Coo, Cof, Cff)
     jscale = max(1.0, abs(float(numpy.trace(Coo))) + p * q * _maxabs(R) ** 2 * _maxabs(Cff))
     o.stat("perturbed_reconstructors", 2 * p * q)
-    _rec(o, agg, "no_better_neighbour", max(0.0, float(numpy.max(J0 - numpy.minimum(Jp, Jm)))) / jscale,
-         TOL_A, sub, C)
-    _rec(o, agg, "stationary", _maxabs((Jp - Jm) / (2 * EPS_DIR)) / jscale, TOL_A, sub, C)
-    _rec(o, agg, "residual_variance_nonnegative", max(0.0, -J0) / jscale, TOL_A, sub, C)
+    _rec(o, agg, "no_better_neighbour" + sfx, max(0.0, float(numpy.max(J0 - numpy.minimum(Jp, Jm)))) / jscale,
+         tol, sub, C)
+    _rec(o, agg, "stationary" + sfx, _maxabs((Jp - Jm) / (2 * EPS_DIR)) / jscale, tol, sub, C)
+    _rec(o, agg, "residual_variance_nonnegative" + sfx, max(0.0, -J0) / jscale, tol, sub, C)
     return R
 
 
@@ -307,19 +480,19 @@ def _rec(o, agg, clause, measure, tol, sub, C):
     """count passing evaluations in bulk, report failing ones individually"""
     m = float(measure)
     if m <= tol:
-        a = agg.setdefault(clause, [0, 0.0])
+        a = agg.setdefault(clause, [0, 0.0, tol])
         a[0] += 1
         a[1] = max(a[1], m)
     else:
         o.check(clause, False, sub=sub, measure=m, tol=tol, detail=_detail(C))
 
 
-def _flush(o, agg):
+def _flush(o, agg, sfx=""):
     n = agg.pop("shape", 0)
     if n:
-        o.check("shape", True, n=n)
-    for clause, (cnt, worst) in agg.items():
-        o.check(clause, True, measure=worst, tol=TOL_A, n=cnt)
+        o.check("shape" + sfx, True, n=n)
+    for clause, (cnt, worst, tol) in agg.items():
+        o.check(clause, True, measure=worst, tol=tol, n=cnt)
 
 
 # covariance matrices far larger than the exhaustive families (size classes where LAPACK drivers block):
@@ -359,8 +532,10 @@ def _evaluate_abig(p):
     if big:
         from mc import variants
         o.stat("lib_calls", variants.check_reuse(o, "matrix", lambda a: fn(a, non, 0.1), C, 1e-12))
-    else:
+    elif _cut_clear(w, 0.1, 1e-6):
         _storage_and_reuse(o, fn, C, non, 0.1)
+    else:                   # an eigenvalue on the cut: its side may legitimately depend on the storage
+        o.stat("storage_eigenvalue_on_cut_not_claimed", 1)
     wmax = float(numpy.max(numpy.abs(w)))
     o.stat("nontrivial_rank_deficient_offoff", int((numpy.abs(w) <= ZERO_EIG * wmax).any()))
     o.outcome((p["m"], p["k"], int((numpy.abs(w) > ZERO_EIG * wmax).sum())))
@@ -375,6 +550,8 @@ def _fn():
 def evaluate(p):
     if p["kind"] == "B":
         return _evaluate_b(p)
+    if p["kind"] == "B2":
+        return _evaluate_b2(p)
     if p["kind"] == "H":
         return _evaluate_h(p)
     if p["kind"] == "Abig":
@@ -384,6 +561,7 @@ def evaluate(p):
     fam = family(p["family"])
     lo = p["chunk"] * CHUNK
     agg = {"shape": 0}
+    agg32 = {"shape": 0}
     deficient = 0
     min_gap = 1.0
     for idx in range(lo, min(lo + CHUNK, len(fam))):
@@ -404,94 +582,267 @@ def evaluate(p):
             if (idx % 8 == 0 or tier_is_thorough()) and wmax > 0 and float(numpy.min(numpy.abs(numpy.abs(w) / wmax - 0.5))) > 1e-6:
                 # (not when an eigenvalue sits exactly on the cut: there the classification may legitimately flip)
                 _storage_and_reuse(o, fn, fam[idx].astype(float), non, 0.5, sub="i=%d:non=%d" % (idx, non))
+            if idx % 8 == 0 or tier_is_thorough():
+                _extras(o, fn, C, non, (w, V), "i=%d:non=%d" % (idx, non), agg, agg32)
     _flush(o, agg)
+    _flush(o, agg32, "_float32")
     o.stat("nontrivial_rank_deficient_offoff", deficient)
     o.note("min_nonzero_eig_rel", min_gap)
     return o
 
 
+def _cut_clear(w, rc, margin):
+    """no eigenvalue within `margin` (relative to the largest) of the cut rc * largest"""
+    wmax = float(numpy.max(numpy.abs(w))) if w.size else 0.0
+    return bool(wmax > 0 and float(numpy.min(numpy.abs(numpy.abs(w) / wmax - rc))) > margin)
+
+
+def _same(o, agg, clause, got, want, tol, sub, C):
+    got, want = numpy.asarray(got), numpy.asarray(want)
+    if got.shape != want.shape:
+        o.check(clause, False, sub=sub, detail="shape %s vs %s" % (got.shape, want.shape))
+        return
+    _rec(o, agg, clause, _maxabs(got.astype(float) - want.astype(float)) / max(1.0, _maxabs(want)), tol, sub, C)
+
+
+def _extras(o, fn, C, non, eig, sub, agg, agg32):
+    """dimensions of 'all conditioning values, all partitions, any PSD matrix' beyond the (C, n_on, rcond) product:
+    the documented default conditioning, keyword spelling, numpy scalar arguments, conditioning above 1, the same
+    matrix at the scale of real slope covariances, and the matrix stored in single precision (what the builder
+    returns)"""
+    w, V = eig
+    wmax = float(numpy.max(numpy.abs(w))) if w.size else 0.0
+    singular = wmax == 0.0 or bool((numpy.abs(w) <= ZERO_EIG * wmax).any())
+    calls = 0
+    # conditioning >= 1 discards every direction clearly below the largest (2.0: all of them, R = 0 on what varies)
+    _judge(o, fn, C, non, 2.0, sub + ":rc=2", agg, eig)
+    if not singular:
+        # documented default (0) of the third argument, and the documented parameter names as keywords
+        base0 = numpy.array(fn(C.copy(), non, 0.0))
+        _same(o, agg, "default_conditioning_is_zero", fn(C.copy(), non), base0, TOL_A, sub, C)
+        _same(o, agg, "default_conditioning_is_zero", fn(covariance_matrix=C.copy(), n_onaxis_subaps=non), base0,
+              TOL_A, sub + ":kw", C)
+        calls += 3
+    if _cut_clear(w, 0.5, 1e-6):
+        base = numpy.array(fn(C.copy(), non, 0.5))
+        _same(o, agg, "argument_spelling", fn(covariance_matrix=C.copy(), n_onaxis_subaps=non, svd_conditioning=0.5),
+              base, TOL_A, sub + ":kw", C)
+        _same(o, agg, "argument_spelling", fn(C.copy(), numpy.int64(non), numpy.float64(0.5)), base, TOL_A,
+              sub + ":numpy_scalars", C)
+        calls += 3
+    # R depends on C_on,off C_off,off^+ with a RELATIVE cut: the same matrix in other units gives the same R
+    # (factors are powers of two: 2^-46 ~ 1.4e-14 is the scale of slope covariances in rad^2, 2^33 ~ 8.6e9)
+    for rc in (1e-12, 0.1):
+        if not _cut_clear(w, rc, 1e-6):
+            continue
+        base = numpy.array(fn(C.copy(), non, rc))
+        calls += 1
+        for e in (-46, 33):
+            _same(o, agg, "scale_invariance", fn(numpy.ldexp(C, e), non, rc), base, TOL_A,
+                  "%s:rc=%g:x2^%d" % (sub, rc, e), C)
+            calls += 1
+    # single precision storage (entries are small integers: exact); conditioning values at which the truncated
+    # problem is well posed in float32. Borderline band and tolerance are those of a float32 decomposition
+    for rc in (0.1, 0.5, 0.9):
+        _judge(o, fn, C, non, rc, "%s:rc=%g" % (sub, rc), agg32, eig, tol=TOL_F32, border=_border32(rc),
+               sfx="_float32", dtype=numpy.float32)
+    o.stat("lib_calls", calls)
+
+
 # ----------------------------------------------------------------------------- end to end
 
+def _b_tol(rc):
+    """float32 pseudo-inverse: rounding is amplified by the condition number of what is retained (<= 1 / rcond when
+    rcond > 0, <= B_COND_MAX when rcond = 0): B_TOL, or 10 eps32 / rcond when that is larger (rcond = 1e-3: 1.2e-3)"""
+    return B_TOL if rc == 0.0 else max(B_TOL, 10 * 1.2e-7 / rc)
+
+
 def _evaluate_b(p):
-    from checks import C01
-    from aotools.turbulence import slopecovariance as sc
-    o = Out()
     m, k0, k2, m2, d2, pos = p["b"]
     spec = [(m, k0, "d1"), (m, k0, "d1"), (m2, k2, d2)]
     if pos == 2:
         spec = [spec[0], spec[2], spec[1]]
-    n0 = int(C01.mask_array(m).sum())
-    worst_dup = worst_ne = worst_cond = 0.0
+    return _evaluate_geoms(spec, ("555", "557" if pos == 1 else "575"), B_LSETS, pos)
+
+
+B2_LAYOUTS = ["XX", "mid4", "two", "dupd2", "mp"]
+
+
+def _b2_cases(tier):
+    """more sensor layouts: two IDENTICAL off-axis sensors and no copy of the on-axis one (rank-deficient off-axis
+    block, incl. ground-layer-only profiles), four sensors with the duplicate in the middle, two sensors (R = I),
+    the duplicate pair with the half-size sub-apertures, and the matrix built by the multi-process path"""
+    from checks import C01
+    masks = B_MASKS_Q if tier == "quick" else B_MASKS_T
+    names = C01.KIND_NAMES
+    for m in masks:
+        for i, k0 in enumerate(names):
+            others = [k for k in names if k != k0]
+            picks = [others[i % len(others)]] if tier == "quick" else others
+            for j, k2 in enumerate(picks):
+                k3 = [k for k in others if k != k2][(i + j) % (len(others) - 1)]
+                for lay in B2_LAYOUTS:
+                    if lay in ("two", "mp") and j > 0:
+                        continue
+                    yield (lay, m, k0, k2, k3)
+
+
+def _evaluate_b2(p):
+    lay, m, k0, k2, k3 = p["b2"]
+    g = "2:1111"
+    if lay == "XX":
+        return _evaluate_geoms([(m, k0, "d1"), (g, k2, "d2"), (g, k2, "d2")], ("555", "577"), B_LSETS + [(0,)], None,
+                               twins=(1, 2))
+    if lay == "mid4":
+        return _evaluate_geoms([(m, k0, "d1"), (g, k2, "d2"), (m, k0, "d1"), ("2:1001", k3, "d1")], ("5755",),
+                               B_LSETS, 2)
+    if lay == "two":
+        return _evaluate_geoms([(m, k0, "d1"), (m, k0, "d1")], ("55", "77"), B_LSETS + [(0,)], 1)
+    if lay == "dupd2":
+        return _evaluate_geoms([(m, k0, "d2"), (m, k0, "d2"), (g, k2, "d1")], ("557",), B_LSETS, 1)
+    if lay == "mp":
+        return _evaluate_geoms([(m, k0, "d1"), (m, k0, "d1"), (g, k2, "d2")], ("557",), [(0, 1), (1, 2)], 1, threads=2)
+    raise ValueError(lay)
+
+
+def _evaluate_geoms(spec, wls, lsets, dup, threads=1, twins=None):
+    """one sensor layout through the real builder, every layer set x wavelength assignment x conditioning.
+    dup: index of the sensor that duplicates sensor 0 (or None); twins: two identical off-axis sensors"""
+    from checks import C01
+    from mc import sched
+    from aotools.turbulence import slopecovariance as sc
+    o = Out()
+    nsub = [int(C01.mask_array(s[0]).sum()) for s in spec]
+    n0 = nsub[0]
+    worst = {"normal_equations_float32": 0.0, "duplicate_sensor_identity": 0.0, "method_equals_function": 0.0,
+             "zero_weight_on_discarded_float32": 0.0, "method_default_conditioning_is_zero": 0.0}
+    worst_cond = worst_twin = 0.0
     bad = {}
-    cnt = {"shape": 0, "method_equals_function": 0, "normal_equations_float32": 0,
-           "duplicate_sensor_identity": 0}
-    for lset in B_LSETS:
+    cnt = dict.fromkeys(["shape"] + list(worst), 0)
+
+    ratio = {}
+
+    def judge(clause, measure, tol, t):
+        cnt[clause] += 1
+        worst[clause] = max(worst[clause], measure if measure == measure else float("inf"))
+        k = "%s:%s" % (clause, t.rsplit(":", 1)[1])
+        ratio[k] = max(ratio.get(k, 0.0), min(measure / tol, 1e300) if measure == measure else 1e300)
+        if not measure <= tol:
+            bad.setdefault(clause, []).append(t)
+
+    for lset in lsets:
         layers = [C01.LAYERS[i] for i in lset]
-        for wl in ("555", "557" if pos == 1 else "575"):
+        for wl in wls:
             sensors = C01._sensor_dicts(spec, wl)
+            tag = "L%s:wl%s" % ("".join(map(str, lset)), wl)
             cm = sc.CovarianceMatrix(
-                3, [s["mask"].copy() for s in sensors], C01.D_TEL, [s["d"] for s in sensors],
+                len(spec), [s["mask"].copy() for s in sensors], C01.D_TEL, [s["d"] for s in sensors],
                 [s["h_gs"] for s in sensors], [list(s["theta"]) for s in sensors], [s["lam"] for s in sensors],
-                len(layers), [l[0] for l in layers], [l[1] for l in layers], [l[2] for l in layers], 1)
+                len(layers), [l[0] for l in layers], [l[1] for l in layers], [l[2] for l in layers], threads)
             with numpy.errstate(all="ignore"):
-                M = numpy.asarray(cm.make_covariance_matrix())
+                if threads == 1:
+                    M = numpy.asarray(cm.make_covariance_matrix())
+                else:
+                    try:
+                        with sched.patched_pools(None) as pp:
+                            M = numpy.asarray(cm.make_covariance_matrix())
+                        o.stat("pools_created", pp.pools_created)
+                    except Exception:
+                        # the multi-process builder (and its instrumentation) is the subject of C01
+                        o.stat("mp_builder_exception_not_claimed", 1)
+                        continue
             o.stat("lib_calls", 1)
             C = M.astype(float)
-            if not numpy.all(numpy.isfinite(C)):
-                # premise (a symmetric PSD matrix) not met: the builder's problem, judged by C01
+            if C.ndim != 2 or C.shape != (2 * sum(nsub),) * 2 or not numpy.all(numpy.isfinite(C)):
+                # premise (a symmetric PSD matrix of all slopes) not met: the builder's problem, judged by C01
                 o.stat("builder_output_not_finite_not_claimed", len(B_RCONDS))
                 continue
             Cs = 0.5 * (C + C.T)
             Cff, Cof = Cs[2 * n0:, 2 * n0:], Cs[:2 * n0, 2 * n0:]
             w, V = numpy.linalg.eigh(Cff)
-            cond = float(numpy.max(numpy.abs(w)) / max(numpy.min(numpy.abs(w)), 1e-300))
-            tag = "L%s:wl%s" % ("".join(map(str, lset)), wl)
-            for rc in B_RCONDS:
-                R = numpy.asarray(cm.make_tomographic_reconstructor(svd_conditioning=rc))
-                Rf = numpy.asarray(sc.create_tomographic_covariance_reconstructor(M.copy(), n0, rc))
+            wmax = float(numpy.max(numpy.abs(w)))
+            cond = float(wmax / max(numpy.min(numpy.abs(w)), 1e-300))
+            R_of = {}
+            for rc in B_RCONDS + ["default"]:
+                t = "%s:rc=%s" % (tag, rc if rc == "default" else "%g" % rc)
+                if rc == "default":
+                    # the documented default of the method is conditioning 0
+                    try:
+                        Rd = numpy.asarray(cm.make_tomographic_reconstructor())
+                    except Exception:
+                        if cond > B_COND_MAX:       # conditioning 0 on an ill-conditioned block: not claimed
+                            o.stat("illconditioned_exception_observed", 1)
+                            continue
+                        raise
+                    o.stat("lib_calls", 1)
+                    if cond <= B_COND_MAX and 0.0 in R_of:
+                        R0 = R_of[0.0]
+                        judge("method_default_conditioning_is_zero", float("inf") if Rd.shape != R0.shape else
+                              _maxabs(Rd.astype(float) - R0) / max(1.0, _maxabs(R0)), B_TOL, t)
+                    continue
+                try:
+                    R = numpy.array(cm.make_tomographic_reconstructor(svd_conditioning=rc))
+                    Rf = numpy.asarray(sc.create_tomographic_covariance_reconstructor(M.copy(), n0, rc))
+                except Exception:
+                    if rc == 0.0 and cond > B_COND_MAX:
+                        o.stat("illconditioned_not_claimed", 1)
+                        o.stat("illconditioned_exception_observed", 1)
+                        continue
+                    raise
                 o.stat("lib_calls", 2)
-                t = "%s:rc=%g" % (tag, rc)
                 cnt["shape"] += 1
                 if R.shape != (2 * n0, C.shape[0] - 2 * n0):
                     bad.setdefault("shape", []).append(t)
                     continue
-                cnt["method_equals_function"] += 1
-                if not numpy.array_equal(R, Rf):
-                    bad.setdefault("method_equals_function", []).append(t)
                 R = R.astype(float)
-                keep, drop, _ = _split(w, rc)
-                if cond > B_COND_MAX:
+                R_of[rc] = R
+                if rc == 0.0 and cond > B_COND_MAX:
                     o.stat("illconditioned_not_claimed", 1)
                     continue
-                worst_cond = max(worst_cond, cond)
+                tol = _b_tol(rc)
+                keep, drop, _ = _split(w, rc, _border32(rc))
+                if rc > 0.0 and cond > B_COND_MAX:
+                    o.stat("illconditioned_judged_on_retained", 1)
+                if (keep | drop).all() and Rf.shape == R.shape:
+                    # (with an eigenvalue in the borderline band two correct routes may treat it differently)
+                    judge("method_equals_function", _maxabs(R - Rf.astype(float)) / max(1.0, _maxabs(Rf)), tol, t)
+                elif Rf.shape != R.shape:
+                    judge("method_equals_function", float("inf"), tol, t)
+                else:
+                    o.stat("borderline_eigenvalue_method_vs_function_not_claimed", 1)
+                worst_cond = max(worst_cond, cond if rc == 0.0 else min(cond, 1.0 / rc))
                 Pk = V[:, keep] @ V[:, keep].T
-                ne = _maxabs((R @ Cff - Cof) @ Pk) / max(_maxabs(Cof), 1e-300)
-                worst_ne = max(worst_ne, ne)
-                cnt["normal_equations_float32"] += 1
-                if not ne <= B_TOL:
-                    bad.setdefault("normal_equations_float32", []).append(t)
-                if keep.all():
+                judge("normal_equations_float32", _maxabs((R @ Cff - Cof) @ Pk) / max(_maxabs(Cof), 1e-300), tol, t)
+                # added clause, as at function level: no weight on clearly discarded directions that carry variance
+                # resolvable in single precision (below 1e-5 of the largest they are null directions to float32)
+                dd = drop & (w > 1e-5 * wmax)
+                if dd.any():
+                    judge("zero_weight_on_discarded_float32", _maxabs(R @ V[:, dd]) / max(1.0, _maxabs(R)), tol, t)
+                if twins is not None:
+                    a = 2 * sum(nsub[1:twins[0]])
+                    b = 2 * sum(nsub[1:twins[1]])
+                    wd = 2 * nsub[twins[0]]
+                    worst_twin = max(worst_twin, _maxabs(R[:, a:a + wd] - R[:, b:b + wd]))
+                if dup is not None and keep.all() and cond <= B_COND_MAX:
                     want = numpy.zeros(R.shape)
-                    if pos == 1:
-                        want[:, :2 * n0] = numpy.eye(2 * n0)
-                    else:
-                        want[:, -2 * n0:] = numpy.eye(2 * n0)
-                    e = _maxabs(R - want)
-                    worst_dup = max(worst_dup, e)
-                    cnt["duplicate_sensor_identity"] += 1
+                    a = 2 * sum(nsub[1:dup])
+                    want[:, a:a + 2 * n0] = numpy.eye(2 * n0)
                     o.stat("duplicate_clause_evaluated", 1)
-                    if not e <= B_TOL:
-                        bad.setdefault("duplicate_sensor_identity", []).append(t)
-    for clause, measure, tol in (("shape", None, None), ("method_equals_function", None, None),
-                                 ("normal_equations_float32", worst_ne, B_TOL),
-                                 ("duplicate_sensor_identity", worst_dup, B_TOL)):
+                    judge("duplicate_sensor_identity", _maxabs(R - want), B_TOL, t)
+    for clause in ["shape"] + list(worst):
         b = bad.get(clause)
         if not cnt[clause] and not b:
             continue
-        o.check(clause, not b, measure=measure, tol=tol, n=max(cnt[clause], 1),
+        tol = None if clause == "shape" else (B_TOL if clause in ("duplicate_sensor_identity", "method_default_conditioning_is_zero")
+                                              else _b_tol(min(B_RCONDS[1:])))
+        o.check(clause, not b, measure=worst.get(clause), tol=tol, n=max(cnt[clause], 1),
                 detail=None if not b else "fails for %s" % ",".join(b))
     o.note("B_worst_cond_claimed", worst_cond)
-    o.outcome((n0, round(worst_cond, 1)))
+    o.note("B_measure_over_tol", ratio)
+    if twins is not None:
+        # equal weights on two identical sensors = no weight on a null direction: an observation, not a clause
+        o.note("twin_sensor_weight_difference", worst_twin)
+    o.outcome((tuple(nsub), round(worst_cond, 1)))
     return o
 
 
@@ -502,6 +853,12 @@ def finalize(tier, results):
     deficient = sum(r.stats.get("nontrivial_rank_deficient_offoff", 0) for r in results.values())
     if any(k.startswith("B:") for k in results):
         o.check("coverage_duplicate_clause_exercised", dup > 0, measure=dup)
+        margin = {}
+        for r in results.values():
+            for k, v in (r.notes.get("B_measure_over_tol") or {}).items():
+                margin[k] = max(margin.get(k, 0.0), v)
+        # worst measure / tolerance per clause and conditioning over all geometries (margin of the unchanged library)
+        o.note("B_measure_over_tol", {k: float("%.3g" % v) for k, v in sorted(margin.items())})
     if any(k.startswith("A:") for k in results):
         o.check("coverage_rank_deficient_inputs", deficient > 0, measure=deficient)
         gaps = [r.notes["min_nonzero_eig_rel"] for r in results.values() if "min_nonzero_eig_rel" in r.notes]
